@@ -453,7 +453,7 @@ def render(T):
     out = []
     out.append('(* GENERATED by tools/gen/gen_tables.py from the working tree of the package -- do not edit.\n'
                '   Finite tables of the code: saver / loader registries, class table, rename table. *)')
-    out.append('From Coq Require Import ZArith List Bool String.\nImport ListNotations.\nOpen Scope Z_scope.\nOpen Scope string_scope.\n')
+    out.append('From Coq Require Import ZArith List Bool String.\nImport ListNotations.\nLocal Open Scope Z_scope.\nLocal Open Scope string_scope.\n')
     out.append('Definition names : list (Z * string) := [')
     items = sorted(n.items(), key=lambda kv: kv[1])
     out.append(';\n'.join('  (%d, "%s")' % (i, s.replace('"', '""')) for s, i in items))
